@@ -128,6 +128,9 @@ def jobs(tier):
 def main(tier):
     js = jobs(tier)
     # built in two stages with a throw-away solve in between: state left in the problem / tasks by an earlier solver
-    js += common.staged([j for j in js if j["family"].startswith(("pair", "with/"))], stride=2 if tier == "quick" else 1, kinds=("solve", "init"))
+    sub = [j for j in js if j["family"].startswith(("pair", "with/"))]
+    js += common.staged(sub, stride=2 if tier == "quick" else 1, kinds=("solve", "init"))
+    # ... and with the solver object created before the declarations
+    js += common.early(sub, stride=3 if tier == "quick" else 1)
     return common.run_space_check("C01", tier, js, RULE, ASSUME,
                                   budget_s=480 if tier == "quick" else 3000)
